@@ -164,6 +164,16 @@ static std::string dumpPolygons(const Polygons* p) {
   return o.str();
 }
 
+static std::string dumpPolyLine(const PolyLine2D* p) { return "(" + sx_vd(p->getX()) + " " + sx_vd(p->getY()) + ")"; }
+static std::string dumpPolyElem(const PolyElem* e) {
+  return "(" + sx_d(e->getZmin()) + " " + sx_d(e->getZmax()) + " " + sx_vd(e->getX()) + " " + sx_vd(e->getY()) + ")";
+}
+static std::string dumpFaults(const Faults* f) {
+  std::string s = "(";
+  for (int i = 0; i < f->getNFaults(); i++) { if (i) s += " "; s += dumpPolyLine(&f->getFault(i)); }
+  return s + ")";
+}
+
 // ------------------------------------------------------------------ one load
 struct Outcome { int status = 0, kind = 0; std::string dump = "()"; int resave = 0, reload = 0, idem = 0, usable = 0; };
 
@@ -273,17 +283,17 @@ static Outcome loadAny(int cls, const std::string& path) {
     case C_NEIGHUNIQUE: return loadNF<NeighUnique>(path, nullptr);
     case C_NEIGHBENCH: return loadNF<NeighBench>(path, nullptr);
     case C_ANAMHERMITE: return loadNF<AnamHermite>(path, nullptr);
-    case C_POLYLINE: return loadNF<PolyLine2D>(path, nullptr);
+    case C_POLYLINE: return loadNF<PolyLine2D>(path, dumpPolyLine);
     case C_MESHETURBO: return loadNF<MeshETurbo>(path, nullptr);
     case C_RULE: return loadNF<Rule>(path, nullptr);
-    case C_FAULTS: return loadNF<Faults>(path, nullptr);
+    case C_FAULTS: return loadNF<Faults>(path, dumpFaults);
     case C_NEIGHIMAGE: return loadNF<NeighImage>(path, nullptr);
     case C_NEIGHCELL: return loadNF<NeighCell>(path, nullptr);
     case C_ANAMEMPIRICAL: return loadNF<AnamEmpirical>(path, nullptr);
     case C_ANAMDD: return loadNF<AnamDiscreteDD>(path, nullptr);
     case C_ANAMIR: return loadNF<AnamDiscreteIR>(path, nullptr);
     case C_DBLINE: return loadNF<DbLine>(path, nullptr);
-    case C_POLYELEM: return loadNF<PolyElem>(path, nullptr);
+    case C_POLYELEM: return loadNF<PolyElem>(path, dumpPolyElem);
     case C_ZYCOR: case C_IFPEN: case C_F2G: case C_BMP: return loadGridFmt(path, cls - C_ZYCOR);
     default:
       if (cls >= C_CSV && cls < C_CSV + 5) return loadCSV(path, cls - C_CSV);
